@@ -2,6 +2,7 @@ import ServiceModel.Proofs.Reachable
 import ServiceModel.Properties.C08
 import ServiceModel.Proofs.NoSlash
 import ServiceModel.Proofs.CountEq
+import ServiceModel.Proofs.CbCount
 /-!
 # C12 — Batch bookkeeping and module callbacks are exact (state part)
 -/
@@ -150,5 +151,22 @@ theorem expiry_of_completed_batch_is_silent (s : State) (c : CtxId) (x : Ctx) (h
 theorem expiry_settlements_emit_no_events (s : State) (x : Ctx) (ids : List ReqId) :
     ∀ e ∈ (foldH (expireReq x) s ids).effs, e.isMoney = true :=
   foldH_effects (expireReq x) (fun e => e.isMoney = true) (expireReq_effects x) ids s
+
+/-! ### the response callback, over whole histories
+
+`CReach` runs the machine together with a counter per context of the response callbacks (`respcb` effects) invoked
+for it so far (`Proofs/CbCount.lean`); the counter is an observer (`CReach.state_reachable`, `reachable_has_count`). -/
+
+/-- Exactly once per batch, over every history: for a context created by a module, the number of response callbacks
+    invoked so far, plus one if a batch is in flight, equals the number of batches started (issued or skipped).
+    So every batch that has been completed got exactly one callback, a batch in flight has not had its callback
+    yet, and no callback is ever invoked without a batch. -/
+theorem callbacks_match_batches (hc : CfgOK cfg p) {s : State} {n : CtxId → Nat} (hr : CReach cfg p h0 t0 s n)
+    (c : CtxId) (x : Ctx) (hx : Map.get s.ctxs c = some x) (hm : x.mod ≠ "") :
+    n c + (if x.bstate = .running then 1 else 0) = x.batch := (cbok_reachable hc hr).2 c x hx hm
+
+/-- No callback is ever invoked for a context id that was never created. -/
+theorem no_callback_without_context (hc : CfgOK cfg p) {s : State} {n : CtxId → Nat} (hr : CReach cfg p h0 t0 s n)
+    (c : CtxId) (hu : c ∉ s.usedIds) : n c = 0 := (cbok_reachable hc hr).1 c hu
 
 end SM.C12
